@@ -1,5 +1,5 @@
 """Property -> rules, and the texts that go into MANIFEST.json / evidence."""
-from .rules import version, layout, opcodes as o, engine as e, glue, registry, safety
+from .rules import version, layout, opcodes as o, engine as e, glue, registry, safety, slices, fmt
 
 TECH = "repository-specific static analysis"
 BASE_ASSUME = [
@@ -174,6 +174,71 @@ PROPS = {
         technique="static analysis: all-paths-pass-through on the CFG between raw reads, re-checks and acceptance; truth table of the liveness guard",
         design_ref="DESIGN.md section 4, C07",
     ),
+    "C04": S(
+        slices.C04,
+        explanation="Three necessary conditions of running-stack slicing, and a sibling check: the limit-trimming condition of unwrap_stackslice as a truth table over (inner is None, outer is None): the head is kept iff only outer is given; "
+                    "the argument mapping of extract_since / extract_until onto StackSlice (including the f_back walk for a frame-valued limit) and keyword-only construction of every StackSlice; "
+                    "get_true_caller skips exactly stackscope's own non-test modules and the singledispatch wrapper; the three built-in unwrappers agree (running -> StackSlice(outer=frame), suspended -> (frame, awaited)).",
+        decides=["SLC-1", "SLC-2", "SLC-3", "SLC-4"],
+        not_decided=["all index arithmetic (index(inner) - 1, [to_idx:from_idx:-1], greenlet stitching, try_from): run-time list positions", "other-thread slices (outside the property's quantifier; see DESIGN.md observations)"],
+        assumptions=BASE_ASSUME,
+        level_text="Thin static check: truth tables and argument-mapping agreement. Necessary conditions only; the off-by-one surface of the slicing arithmetic is not decided by any sound static argument in reach.",
+        level_note="Thin.",
+        technique="static analysis: truth tables over condition atoms, argument-mapping agreement, sibling agreement",
+        design_ref="DESIGN.md section 4, C04",
+    ),
+    "C09": S(
+        slices.C09 + [e.ctx5],
+        explanation="inner_stack is assigned from extract_child(<manager's generator>, for_task=False) only under `not context.is_exiting` in both sibling registrations; the four-way classification of elaborate_exit_stack assigns method names in sync/async pairs that are real methods of ExitStack/AsyncExitStack "
+                    "on every supported interpreter, and every private contextlib name it reads (_exit_callbacks, element order (is_sync, callback), wrapper name _exit_wrapper, free variables args/kwds, __wrapped__, MethodType exit wrappers, _GeneratorContextManagerBase attributes) "
+                    "agrees with contextlib.py of CPython 3.9-3.12; the child's is_async is the negation of is_sync; children are unfolded with fill_context, appended in deque (registration) order and assigned once.",
+        decides=["GCM-1", "CTX-5", "CTX-6", "CTX-7", "CTX-8"],
+        not_decided=["the resulting tree for every registration sequence at run time"],
+        assumptions=BASE_ASSUME + FACT_ASSUME,
+        level_text="Static reader/writer agreement between stackscope's exit-stack glue and contextlib's source on four interpreters, plus polarity/order/guard rules. Necessary conditions.",
+        level_note="contextlib facts are extracted from each interpreter's contextlib.py by ast.",
+        technique="static analysis: classification table vs contextlib.py of 4 versions, polarity and ordering rules",
+        design_ref="DESIGN.md section 4, C09",
+    ),
+    "C18": S(
+        fmt.C18,
+        explanation="Shape facts of the tree formatter: every prefix marker is chosen by `<ascii> if opts.ascii_only else <unicode>` with an ASCII, 2-character counterpart, the unicode->ascii map is a function across the three _format methods, unicode markers of one method are pairwise distinct, "
+                    "and Frame._format recognises child-context lines by exactly the marker Context._format emits; all four visibility tests are `hide and not show_hidden` (truth tables); in every loop over a sub-component's lines each line reaches lines.append(marker + line) on every path; "
+                    "every produced line is newline-terminated; format forwards its options by name and str() joins format(); contexts are rendered iff show_contexts.",
+        decides=["FMT-1", "FMT-2", "FMT-3", "FMT-5", "FMT-7"],
+        not_decided=["unambiguous read-back of the tree", "blank-line logic (did_blank)", "startswith(child indicator) applied to already-prefixed text"],
+        assumptions=BASE_ASSUME,
+        level_text="Thin static check of five shape facts of the formatter; the parse-back property is not claimed.",
+        level_note="Thin.",
+        technique="static analysis: marker-table agreement, truth tables, all-paths-pass-through for 'no dropped line'",
+        design_ref="DESIGN.md section 4, C18",
+    ),
+    "C19": S(
+        fmt.C19,
+        explanation="The two summary-side visibility tests; sibling agreement between Frame._format and as_stdlib_summary_with_contexts on when the frame's own entry is omitted (truth table, addressed as contexts[-1]); "
+                    "no argument of any FrameSummary construction is a frame or object graph (locals is None or a dict of repr strings) and the entries carry (filename, lineno, funcname) / the with-line; "
+                    "format_flat = header, StackSummary.format() iff frames, leaf, error; every option is forwarded to the same-named parameter through the five summary methods, and a context yields own entry, inner stack, children in that order.",
+        decides=["FMT-2", "FMT-4", "FMT-6", "FMT-8", "FMT-9"],
+        not_decided=["pickle round trip", "equality with traceback's rendering"],
+        assumptions=BASE_ASSUME,
+        level_text="Thin static check: sibling agreement and argument provenance.",
+        level_note="Thin.",
+        technique="static analysis: sibling agreement, argument provenance of FrameSummary constructions, option-forwarding agreement over resolved callees",
+        design_ref="DESIGN.md section 4, C19",
+    ),
+    "C20": S(
+        fmt.C20 + [o.exi1_producers, version.ver1_opcodes],
+        explanation="The trickery call is inside a try whose Exception handler warns with InspectionWarning and assigns the referents result (never re-raises), and referents is used when trickery is unavailable; the mode switch is a plain module-level global (not thread-local), "
+                    "written only in set_trickery_enabled and _check_trickery_available and always under _trickery_lock; set_trickery_enabled stores its argument unchanged; _check_trickery_available returns the stored value whenever it is not None and re-tests after taking the lock; "
+                    "a failing self-test warns and stores False; the referents producer filters bound __exit__/__aexit__ methods, derives is_async from the name, takes obj from __self__, appends the exiting entry last, and roots the scan at the owning generator exactly on 3.11/3.12.",
+        decides=["CONT-7", "MODE-0", "MODE-1", "MODE-2", "MODE-3", "EXI-1", "REF-1", "VER-1"],
+        not_decided=["soundness of gc.get_referents ordering", "the over-approximation bound (which extra entries can appear)"],
+        assumptions=BASE_ASSUME + FACT_ASSUME,
+        level_text="Static containment and switch-write-protocol check, plus structural clauses of the referents producer.",
+        level_note="Necessary conditions.",
+        technique="static analysis: enclosing-handler check, single-writer-under-lock rule, partial evaluation of the root selection over versions",
+        design_ref="DESIGN.md section 4, C20",
+    ),
     "C17": S(
         glue.C17 + [e.def1],
         explanation="Protocol of the glue installer: there is one installer function and every call of a glue function goes through it (who-may-call); both references are removed from their registries (pop) before either is called; "
@@ -193,10 +258,5 @@ PROPS = {
 NOT_APPLICABLE = {
     "C03": "quantifies over run-time object graphs (cr_await / gi_yieldfrom / gc.get_referents chains) and line numbers of an await/yield-from chain; the built-in unwrappers are one-liners already pinned by the suite; no structural clause adds a necessary condition the tests miss, and comparing with a thrown exception's traceback is execution, not static analysis",
     "C14": "isomorphism with Trio's live task tree and thread hand-offs depends on Trio's run-time state and on locals of third-party frames; nothing in the shape of stackscope's code separates right from wrong",
-    "C04": "check under construction in this session (SLC rules); not claimed until it lands",
-    "C09": "check under construction in this session (GCM/CTX-6..8 rules); not claimed until it lands",
-    "C18": "check under construction in this session (FMT rules); not claimed until it lands",
-    "C19": "check under construction in this session (FMT rules); not claimed until it lands",
-    "C20": "check under construction in this session (MODE/REF rules); not claimed until it lands",
     "C15": "greenlet/greenback stacks are a case analysis over run-time gr_frame / parent / f_back values (finding F8 included); no sound static argument in reach bounds them",
 }
